@@ -59,26 +59,29 @@ ArgText(f, inner) ==
       [] f = "pipefilet" -> <<"x", "|", ">", "f">>
 \* segments: a command (glue: is the command word followed by a blank when it has no argument) or an assignment
 \* (trail: is the argument followed by a blank before the flow token)
-CmdSegs(ArgForms) == {[k |-> "cmd", cmd |-> c, glue |-> g, form |-> f, inner |-> i, trail |-> t] :
-                          c \in Cmds, g \in {TRUE, FALSE}, f \in ArgForms, i \in Cmds, t \in {TRUE, FALSE}}
+\* colon: the command word is written in the old `cmd: arguments` form
+CmdSegs(ArgForms) == {[k |-> "cmd", cmd |-> c, glue |-> g, form |-> f, inner |-> i, trail |-> t, colon |-> co] :
+                          c \in Cmds, g \in {TRUE, FALSE}, f \in ArgForms, i \in Cmds, t \in {TRUE, FALSE}, co \in {TRUE, FALSE}}
 Norm(s) == \* canonical: inner only matters for forms that use it; glue only for the bare form, trail for the others
     [s EXCEPT !.inner = IF NeedsInner(s.form) THEN s.inner ELSE <<"o", "u", "t">>,
               !.glue = IF s.form = "none" THEN s.glue ELSE TRUE,
-              !.trail = IF s.form = "none" THEN FALSE ELSE s.trail]
+              !.trail = IF s.form = "none" THEN FALSE ELSE s.trail,
+              \* (the colon form is generated with the plain argument only; an escaped character in the word is left out of it)
+              !.colon = IF s.form = "plain" /\ (\A x \in DOMAIN s.cmd : s.cmd[x] # "BS") THEN s.colon ELSE FALSE]
 Segs(ArgForms) == {Norm(s) : s \in CmdSegs(ArgForms)}
-                  \cup {[k |-> "assign", cmd |-> <<>>, glue |-> TRUE, form |-> "none", inner |-> <<>>, trail |-> FALSE],
+                  \cup {[k |-> "assign", cmd |-> <<>>, glue |-> TRUE, form |-> "none", inner |-> <<>>, trail |-> FALSE, colon |-> FALSE],
                         \* an assignment to a variable that is called like a safe command: `out = 1`
-                        [k |-> "assign", cmd |-> <<"o", "u", "t">>, glue |-> TRUE, form |-> "none", inner |-> <<>>, trail |-> FALSE]}
+                        [k |-> "assign", cmd |-> <<"o", "u", "t">>, glue |-> TRUE, form |-> "none", inner |-> <<>>, trail |-> FALSE, colon |-> FALSE]}
 SegText(s) ==
     IF s.k = "assign" THEN (IF s.cmd = <<>> THEN <<"v">> ELSE s.cmd) \o <<"SP", "=", "SP", "1">>
-    ELSE s.cmd \o (IF s.form = "none" THEN (IF s.glue THEN <<"SP">> ELSE <<>>)
+    ELSE s.cmd \o (IF s.colon THEN <<":">> ELSE <<>>) \o (IF s.form = "none" THEN (IF s.glue THEN <<"SP">> ELSE <<>>)
                    ELSE <<"SP">> \o ArgText(s.form, s.inner) \o (IF s.trail THEN <<"SP">> ELSE <<>>))
 
 \* lines: segs[1..n] joined by joins[1..n-1]; the last segment is the command being completed
 RECURSIVE SeqsOf(_, _)
 SeqsOf(S, n) == IF n = 0 THEN {<<>>} ELSE {Append(r, e) : r \in SeqsOf(S, n - 1), e \in S}
 \* the segment being completed: a safe command followed by a blank (so that the last word itself is not the reason)
-LastSeg == [k |-> "cmd", cmd |-> <<"o", "u", "t">>, glue |-> TRUE, form |-> "none", inner |-> <<"o", "u", "t">>, trail |-> FALSE]
+LastSeg == [k |-> "cmd", cmd |-> <<"o", "u", "t">>, glue |-> TRUE, form |-> "none", inner |-> <<"o", "u", "t">>, trail |-> FALSE, colon |-> FALSE]
 LinesOf(maxsegs, Joiners, ArgForms) ==
     UNION {{[segs |-> Append(ss, LastSeg), joins |-> js] : ss \in SeqsOf(Segs(ArgForms), n), js \in SeqsOf(Joiners, n)} : n \in 1..(maxsegs - 1)}
 Lines == UNION {LinesOf(p[1], p[2], p[3]) : p \in Plans}
